@@ -117,16 +117,12 @@ Qed.
 
 (** ---------- C13: where a panic can come from ---------- *)
 
-Definition int_ok (o : ocode) : bool :=
-  match o with OInt (Some z) => in_range (-128) 127 z | OInt None => false | _ => true end.
-
 Lemma codegen_no_panic m st dol :
   (forall md s mn ops, enc_emit E md s mn ops <> EPanic) ->
-  forall os acc d, forallb int_ok os = true -> codegen E m st dol acc d os <> GPanic.
+  forall os acc d, codegen E m st dol acc d os <> GPanic.
 Proof.
-  intros HE. induction os as [|o r IH]; intros acc d Hok; cbn [codegen]; [discriminate|].
-  cbn [forallb] in Hok. apply andb_prop in Hok as [Ho Hr].
-  destruct (gen_ocode E m st dol (zlen acc) o) eqn:G; try (apply IH; exact Hr); try discriminate.
+  intros HE. induction os as [|o r IH]; intros acc d; cbn [codegen]; [discriminate|].
+  destruct (gen_ocode E m st dol (zlen acc) o) eqn:G; try (apply IH); try discriminate.
   exfalso. destruct o; cbn [gen_ocode] in G; try discriminate.
   - destruct (n <? 0); discriminate.
   - destruct ((n <=? 0) || negb (Z.land n (n - 1) =? 0)); discriminate.
@@ -138,7 +134,7 @@ Proof.
       destruct (lookup name jcc_table); discriminate.
   - destruct (in_range (-32768) 32767 seg && in_range (-2147483648) 2147483647 off); discriminate.
   - destruct (lookup name noparam_table); discriminate.
-  - destruct v as [z|]; cbn [int_ok] in Ho; [rewrite Ho in G; discriminate | discriminate].
+  - destruct v as [z|]; [destruct (in_range 0 255 z); discriminate | discriminate].
   - apply (HE _ _ _ _ G).
 Qed.
 
